@@ -8,7 +8,7 @@ from engine import mark
 from spec import lis_lr_ref as L
 from TotalDepth.LIS.core import LogiRec, File, RepCode
 
-ROWNAMES = [b'BS  ', b'DFD ', b'MATR']
+ROWNAMES = [b'BS  ', b'DFD ', b'MATR', 0, 1, -1, 300]      # row names are the first cell of each row: text or (legal, rarer) numbers
 CELLS = [b'', b'A', b'ABC ', 0, 255, 256, -1, -32768, 32767, 32768, -32769, 2147483647, -2147483648, 0.5, -153.0, 8.5]
 
 
@@ -21,6 +21,8 @@ def _table(nrows, n0, n1, n2, ncols, c0, c1, c2, u, split):
     names = [ROWNAMES[n0], ROWNAMES[n1], ROWNAMES[n2]][:nrows]
     cells = [c0, c1, c2]
     mnems = [b'MNEM', b'VALU', b'PUNI'][:1 + ncols]
+    if any(isinstance(n, int) for n in names):
+        mnems[0] = b'INDX'        # numeric row names: the first column is then not a mnemonic column
     table = []
     k = 0
     for r in range(nrows):
@@ -74,27 +76,27 @@ def _table(nrows, n0, n1, n2, ncols, c0, c1, c2, u, split):
     return True
 
 
-def table_roundtrip_q(nrows: int, n1: int, n2: int, ncols: int, c0: int, u: bool, split: bool) -> bool:
+def table_roundtrip_q(nrows: int, n1: int, n2: int, ncols: int, c0: int, u: bool, split: bool, n0: int = 0) -> bool:
     """
-    pre: 0 <= nrows <= 3 and 0 <= n1 <= 1 and 0 <= n2 <= 2 and 1 <= ncols <= 2
-    pre: 0 <= c0 <= 15
+    pre: 0 <= nrows <= 3 and n1 in (0, 1, 3, 4) and n2 in (0, 2, 3, 4, 5) and 1 <= ncols <= 2
+    pre: 0 <= c0 <= 15 and 0 <= n0 <= 1
     pre: PART < 0 or nrows * 4 + (2 if u else 0) + (1 if split else 0) == PART
     post: _
     """
-    nrows, n1, n2, ncols = mark.pick(nrows, 0, 3), mark.pick(n1, 0, 1), mark.pick(n2, 0, 2), mark.pick(ncols, 1, 2)
-    c0, u, split = mark.pick(c0, 0, 15), mark.pickb(u), mark.pickb(split)
+    nrows, n1, n2, ncols = mark.pick(nrows, 0, 3), mark.pick_from(n1, (0, 1, 3, 4)), mark.pick_from(n2, (0, 2, 3, 4, 5)), mark.pick(ncols, 1, 2)
+    c0, u, split, n0 = mark.pick(c0, 0, 15), mark.pickb(u), mark.pickb(split), mark.pick(n0, 0, 1)
     with mark.untraced():
-        return _table(nrows, 0, n1, n2, ncols, c0, 6, 13, u, split)
+        return _table(nrows, n0 * 4, n1, n2, ncols, c0, 6, 13, u, split)
 
 
 def table_roundtrip(nrows: int, n0: int, n1: int, n2: int, ncols: int, c0: int, c1: int, c2: int, u: bool, split: bool) -> bool:
     """
-    pre: 0 <= nrows <= 3 and 0 <= n0 <= 2 and 0 <= n1 <= 2 and 0 <= n2 <= 2 and 1 <= ncols <= 2
+    pre: 0 <= nrows <= 3 and 0 <= n0 <= 6 and 0 <= n1 <= 6 and 0 <= n2 <= 6 and 1 <= ncols <= 2
     pre: 0 <= c0 <= 15 and c1 in (1, 6, 11) and c2 in (0, 13)
     pre: PART < 0 or nrows * 4 + (2 if u else 0) + (1 if split else 0) == PART
     post: _
     """
-    nrows, n0, n1, n2, ncols = mark.pick(nrows, 0, 3), mark.pick(n0, 0, 2), mark.pick(n1, 0, 2), mark.pick(n2, 0, 2), mark.pick(ncols, 1, 2)
+    nrows, n0, n1, n2, ncols = mark.pick(nrows, 0, 3), mark.pick(n0, 0, 6), mark.pick(n1, 0, 6), mark.pick(n2, 0, 6), mark.pick(ncols, 1, 2)
     c0, c1, c2 = mark.pick(c0, 0, 15), mark.pick_from(c1, (1, 6, 11)), mark.pick_from(c2, (0, 13))
     u, split = mark.pickb(u), mark.pickb(split)
     with mark.untraced():
